@@ -8,7 +8,8 @@ LEVEL = ("Static analysis of linfa-clustering k-means: (argmin) fit, fit_with, b
          "smaller, updates index and distance together, covers every centroid row and returns the pair; (best) every field of "
          "the returned model is a function of state saved under the same acceptance guard as the returned centroids (or of "
          "loop-invariant inputs), never of per-restart scratch state; (fresh) the distances behind the reported inertia were "
-         "computed from the centroid matrix that is returned, with no reassignment in between. Necessary conditions of "
+         "computed from the centroid matrix that is returned, with no reassignment in between on any path; every call of the scan and of the update helpers passes the model's own "
+         "metric. Necessary conditions of "
          "'assigns to a centroid at minimal distance' and 'reported inertia and counts describe the returned centroids'; "
          "cost monotonicity and numeric values are not decided.")
 ASSUME = ["rustc resolution/typeck; HIR faithfully dumped", "Distance::rdistance is the reduced distance of the configured metric"]
